@@ -42,6 +42,11 @@ CLAIMED = {
             "counts), 0-3 members/frames/tracks incl. empty ones and a 12-frame course, unset widths, all numbers "
             "symbolic; obligations: equality by the classes' own __eq__ and term-by-term (same class, layout, "
             "parameters, times, order); inconsistent members must raise or round-trip", "§4 C08"),
+    "C09": ("bounded symbolic execution, in crash-only mode (exceptions escaping public entry points on any feasible "
+            "path, operations outside their domain, non-finite results), of the rendering, locating, refining "
+            "(optimiser contract), class-selection, thresholding and tracking scenarios of C01-C04, C06, C18, C19 "
+            "plus locate_droplets / DropletTracker through the real locator on fields of symbolic values with every "
+            "threshold rule and option combination; documented ValueError / TypeError requests checked", "§4 C09"),
     "C10": ("bounded symbolic execution of remove_overlapping / get_pairwise_distances / overlaps / "
             "get_neighbor_distances / from_random on n<=3 (thorough 4) droplets, dims 1-3, with and without periodic "
             "grids; positions, radii, minimal distance and rng draws symbolic; independent min-image oracle", "§4 C10"),
